@@ -28,6 +28,14 @@ theorem gen_signed_is_submitted :
     Generated.C03.evmHashArg = Generated.C03.evmWatchArg ++ ".proposals" ∧ Generated.C03.evmWatchArg ≠ "" ∧
     Generated.C03.subHashArg = Generated.C03.subWatchArg ∧ Generated.C03.subWatchArg ≠ "" := by decide
 
+/-- the periodic executed-check sweeps the WHOLE slice it is given, a member that errs or is not executed answers
+    "not yet", and the watch loop hands it the session's whole batch (model: `allExecuted` over every member) -/
+theorem gen_tick_whole_batch :
+    Generated.C03.evmTickRange = "proposals" ∧ Generated.C03.subTickRange = "proposals" ∧
+    Generated.C03.evmTickMemberTest = "err != nil || !isExecuted => { return false }" ∧
+    Generated.C03.subTickMemberTest = "err != nil || !isExecuted => { return false }" ∧
+    Generated.C03.evmTickArg = "batch.proposals" ∧ Generated.C03.subTickArg = "proposals" := by decide
+
 /-- BTC: the source's executable-status predicate is the model's `canExec` -/
 theorem gen_btc_canExec (v : Status) : Generated.C03.btcCanExec (statusCode v) = canExec v := by
   cases v <;> decide
